@@ -7,6 +7,7 @@ the boundaries) and run through engine.EvaluateSelect. Coq evaluates the model (
 verified checker check_select of Spec/SelectSpec.v on what Go returned (SM)."""
 import vlib
 from props import selcommon as sc
+from props import sqlfront
 
 PROP_FILES = ["Properties/C05.v"]
 HARNESS = ["engine"]
@@ -85,6 +86,9 @@ def gen_case(rng, tier):
         lo = sc.gen_limit_offset(rng, nrows)
         if lo:
             q += " " + lo
+        if rng.random() < 0.2:
+            # longer than the scanner's 1024-byte read block, a keyword or name straddling a block boundary
+            q = sqlfront.pad_to_buffer_boundary(rng, q)
         queries.append(q)
     return {"tables": [t], "queries": queries, "kind": "ties" if ties else "plain"}
 
